@@ -1,6 +1,10 @@
 package c04
 
 import (
+	"bytes"
+	"crypto/sha256"
+	"fmt"
+	"sync"
 	"testing"
 
 	ct "github.com/google/certificate-transparency-go"
@@ -9,6 +13,9 @@ import (
 	"pgregory.net/rapid"
 
 	"verif/internal/harness"
+	"verif/internal/keys"
+	"verif/internal/pki"
+	"verif/internal/preref"
 	"verif/internal/rfc6962"
 	"verif/internal/world"
 )
@@ -23,14 +30,121 @@ type ChainCase struct {
 	Spec      world.ChainSpec
 	Timestamp uint64
 	Ext       Blob // SCT extensions entering the signature input
+	// Twin: two issuing CAs with DIFFERENT keys and the SAME subject key identifier, each issuing one
+	// precertificate; the leaves are built one after the other in this process.
+	Twin *TwinSpec `json:",omitempty"`
 }
+
+type TwinSpec struct {
+	SKI          []byte // shared subjectKeyIdentifier (small space, so that it also recurs across cases)
+	KindA, KindB string
+	IdxA, IdxB   int
+	Rounds       int // how many times A, B are alternated
+}
+
+var twinKinds = []string{"p256", "p384", "ed25519", "p521"}
+var twinSKIs = [][]byte{{1}, {2}, {0xC0, 0x4}, []byte("0123456789abcdefghij")}
 
 func genFromChain(t *rapid.T) ChainCase {
 	s := world.GenSpec(t, "spec")
 	if pick(t, "force-preissuer", 3) == 0 { // the interesting shape: precert signed by a pre-issuer
 		s.Precert, s.PreIssuer = true, true
 	}
-	return ChainCase{Spec: s, Timestamp: genU64(t, "ts"), Ext: genValidBlob(t, "ext", 0, false)}
+	c := ChainCase{Spec: s, Timestamp: genU64(t, "ts"), Ext: genValidBlob(t, "ext", 0, false)}
+	if pick(t, "twin", 3) == 0 {
+		tw := &TwinSpec{SKI: pickFrom(t, "twin-ski", twinSKIs), KindA: pickFrom(t, "twin-ka", twinKinds), KindB: pickFrom(t, "twin-kb", twinKinds),
+			IdxA: pick(t, "twin-ia", 3), IdxB: pick(t, "twin-ib", 3), Rounds: 1 + pick(t, "twin-rounds", 2)}
+		if tw.KindA == tw.KindB && tw.IdxA == tw.IdxB {
+			tw.IdxB = tw.IdxA + 1
+		}
+		c.Twin = tw
+	}
+	return c
+}
+
+// twinIssuer builds (once per process and parameter set) an issuing CA under world root 0 whose SKI is the
+// given one, and a precertificate issued by it.
+var twinCache sync.Map
+
+type twinPair struct{ ca, pre *pki.Cert }
+
+func twinIssuer(kind string, idx int, ski []byte) twinPair {
+	key := fmt.Sprintf("%s/%d/%x", kind, idx, ski)
+	if v, ok := twinCache.Load(key); ok {
+		return v.(twinPair)
+	}
+	root := world.Roots()[0]
+	k := keys.Pick(kind, idx)
+	t := pki.CATemplate("C04 Twin CA "+key, k, 4242, pki.KeyID(root.Key))
+	for i := range t.Exts {
+		if pki.OIDEq(t.Exts[i].OID, pki.OIDExtSKI) {
+			t.Exts[i] = pki.SKI(ski)
+		}
+	}
+	ca := pki.Issue(root, t, "twin-ca/"+key)
+	lt := pki.LeafTemplate("c04-twin-"+kind, keys.Pick("p256", 7), 4343, ski)
+	lt.Exts = append(lt.Exts, pki.Poison())
+	pre := pki.Issue(ca, lt, "twin-pre/"+key)
+	p := twinPair{ca, pre}
+	twinCache.Store(key, p)
+	return p
+}
+
+func checkTwin(v *harness.Verdict, c ChainCase) {
+	tw := c.Twin
+	v.Class("twin-issuers-same-ski")
+	v.NonTrivial = true
+	root := world.Roots()[0]
+	pairs := []twinPair{twinIssuer(tw.KindA, tw.IdxA, tw.SKI), twinIssuer(tw.KindB, tw.IdxB, tw.SKI)}
+	for r := 0; r < tw.Rounds; r++ {
+		for i, p := range pairs {
+			tbs, err := preref.Transform(p.pre.TBS, preref.OIDPoison, nil)
+			if err != nil {
+				v.Failf("harness", "preref: %v", err)
+				return
+			}
+			entry := rfc6962.Entry{Type: rfc6962.PrecertEntry, TBS: tbs, IssuerKeyHash: sha256.Sum256(p.ca.Key.SPKI)}
+			want, err := rfc6962.EncodeLeaf(rfc6962.Leaf{Timestamp: c.Timestamp, Entry: entry})
+			if err != nil {
+				v.Failf("harness", "reference: %v", err)
+				return
+			}
+			ders := [][]byte{p.pre.DER, p.ca.DER, root.DER}
+			var parsed []*x509.Certificate
+			raw := make([]ct.ASN1Cert, len(ders))
+			for k, der := range ders {
+				raw[k] = ct.ASN1Cert{Data: der}
+				cert, perr := x509.ParseCertificate(der)
+				if cert == nil {
+					v.Failf("harness", "twin certificate %d does not parse: %v", k, perr)
+					return
+				}
+				parsed = append(parsed, cert)
+			}
+			for _, api := range []string{"MerkleTreeLeafFromChain", "MerkleTreeLeafFromRawChain"} {
+				var leaf *ct.MerkleTreeLeaf
+				var lerr error
+				if api == "MerkleTreeLeafFromChain" {
+					leaf, lerr = ct.MerkleTreeLeafFromChain(parsed, ct.PrecertLogEntryType, c.Timestamp)
+				} else {
+					leaf, lerr = ct.MerkleTreeLeafFromRawChain(raw, ct.PrecertLogEntryType, c.Timestamp)
+				}
+				if lerr != nil || leaf == nil {
+					v.Failf("fromchain-refused:"+api, "%s refused a precertificate chain under twin issuer %d: %v", api, i, lerr)
+					return
+				}
+				got, merr := cttls.Marshal(*leaf)
+				if merr != nil || !bytes.Equal(got, want) {
+					sig := "enc-bytes:" + api
+					if te := leaf.TimestampedEntry; te != nil && te.PrecertEntry != nil && te.PrecertEntry.IssuerKeyHash != entry.IssuerKeyHash {
+						sig = "fromchain-issuer-key-hash-stale:" + api
+					}
+					v.Failf(sig, "%s, issuer %d of 2 issuers with different keys (%s#%d, %s#%d) and the same subjectKeyIdentifier %x, round %d: leaf differs from the RFC encoding (%v) %s", api, i+1, tw.KindA, tw.IdxA, tw.KindB, tw.IdxB, tw.SKI, r+1, merr, firstDiff(got, want))
+					return
+				}
+			}
+		}
+	}
 }
 
 func checkFromChain(t *testing.T, c ChainCase) (v harness.Verdict) {
@@ -99,12 +213,15 @@ func checkFromChain(t *testing.T, c ChainCase) (v harness.Verdict) {
 	judge("MerkleTreeLeafFromChain", l1, e1)
 	l2, e2 := ct.MerkleTreeLeafFromRawChain(raw, etype, c.Timestamp)
 	judge("MerkleTreeLeafFromRawChain", l2, e2)
+	if c.Twin != nil {
+		checkTwin(&v, c)
+	}
 	return v
 }
 
 // FromChain is the leaf-constructor part of C04.
 var FromChain = harness.Define(harness.Opts{
 	Name:  "fromchain",
-	Rule:  "a generated submission chain (internal/world: 4 roots, 0-3 intermediates of mixed key types, cross-signed CAs, precertificates with the poison at any position, signed directly or by a precertificate signing certificate with / without AKI - the latter forced in a third of the cases) handed to MerkleTreeLeafFromChain and MerkleTreeLeafFromRawChain; the leaf, LeafHashForLeaf and SerializeSCTSignatureInput must be the RFC bytes for the entry derived independently (internal/preref TBS transformation, issuer_key_hash of the final issuer). Non-trivial: precertificate entries",
+	Rule:  "a generated submission chain (internal/world: 4 roots, 0-3 intermediates of mixed key types, cross-signed CAs, precertificates with the poison at any position, signed directly or by a precertificate signing certificate with / without AKI - the latter forced in a third of the cases) handed to MerkleTreeLeafFromChain and MerkleTreeLeafFromRawChain; the leaf, LeafHashForLeaf and SerializeSCTSignatureInput must be the RFC bytes for the entry derived independently (internal/preref TBS transformation, issuer_key_hash of the final issuer). A third of the cases also build precert leaves alternately under two issuing CAs with different keys (p256/p384/p521/ed25519 pool) and the SAME subjectKeyIdentifier drawn from four values, so identifiers also recur across the cases of a process. Non-trivial: precertificate entries",
 	Quick: 500, Thorough: 4000, MaxSample: 900,
 }, genFromChain, checkFromChain)
